@@ -408,7 +408,7 @@ def Qbfs_seq(ns, x):
 
     ns = list(ns)
     min_i = 0
-    out = np.empty((len(ns), *x.shape), dtype=x.dtype)
+    out = np.empty((len(ns), *x.shape), dtype=np.result_type(x.dtype, np.float32))
 
     rho = x ** 2
     # c_Q is the leading term used to convert Qm to Qbfs
